@@ -143,6 +143,15 @@ func VerifC15PhaseController() {
 	if hasFinalizer {
 		p.Finalizers = []string{constants.CachedFinalizer}
 	}
+	// deleted with orphan propagation: the API server adds the "orphan" finalizer
+	orphan := deleting && verifrt.Bool("finalizer.orphan")
+	if orphan {
+		p.Finalizers = append(p.Finalizers, "orphan")
+	}
+	// deleted with foreground propagation: a different finalizer that must not be mistaken for it
+	if deleting && !orphan && verifrt.Bool("finalizer.foregroundDeletion") {
+		p.Finalizers = append(p.Finalizers, metav1.FinalizerDeleteDependents)
+	}
 	if deleting {
 		now := metav1.Now()
 		p.DeletionTimestamp = &now
@@ -201,8 +210,13 @@ func VerifC15PhaseController() {
 	}
 	if deleting {
 		verifrt.Assert(cap.reconcileCalls == 0, "C04/no-rollout-while-deleting")
-		verifrt.Assert((cap.teardownCalls == 1) == hasFinalizer, "C04/teardown-while-finalizer-present")
-		tdDone := !hasFinalizer || (cap.tdDone && !cap.tdErr)
+		if orphan {
+			// nothing of the phase is torn down; the phase object itself is released
+			verifrt.Assert(cap.teardownCalls == 0, "C05/orphan-deletes-nothing")
+		} else {
+			verifrt.Assert((cap.teardownCalls == 1) == hasFinalizer, "C04/teardown-while-finalizer-present")
+		}
+		tdDone := !hasFinalizer || orphan || (cap.tdDone && !cap.tdErr)
 		removed := false
 		for _, pt := range patches {
 			var body map[string]interface{}
